@@ -98,7 +98,7 @@ def runner(prop, fam, tier, seed, replay=None):
             print("INFRA-FAILURE property=%s driver exception: %s" % (prop, traceback.format_exc()[-2000:]), flush=True)
             return 2
         if shape_info is not None:
-            p = os.path.join(vcheck.VERIF, "evidence", prop + ".json")
+            p = vcheck.evidence_path(prop)
             try:
                 ev = json.load(open(p))
                 ev["coverage"]["original_design_model"] = shape_info
